@@ -20,6 +20,7 @@ import (
 	"sort"
 	"strconv"
 	"strings"
+	"sync"
 	"sync/atomic"
 	"time"
 
@@ -91,6 +92,8 @@ type world struct {
 	at       string       // "" = no bump in flight, else the call it is parked at
 	failCall string       // main-goroutine fault injection: this call fails once
 	failHit  bool
+
+	wg sync.WaitGroup // harness goroutines that may be inside the key manager / database of this world
 
 	dbFault    string // "" | err | close : fault for the next slashing-record write at database level
 	dbFaultHit bool
@@ -200,8 +203,49 @@ func (w *world) abortBump() {
 	w.at = ""
 }
 
+// panicErr: a panic inside a harness goroutine, reported as that request's outcome instead of killing the process
+type panicErr struct{ v interface{} }
+
+func (p panicErr) Error() string { return hx.Sprintf("panic: %v", p.v) }
+
+func safely(f func() error) (err error) {
+	defer func() {
+		if r := recover(); r != nil {
+			err = panicErr{r}
+		}
+	}()
+	return f()
+}
+
+// spawn starts a harness goroutine that may call into the key manager / database of this world. Every such
+// goroutine is counted; the database is closed or reopened only after all of them have returned (joinAll).
+func (w *world) spawn(f func()) {
+	w.wg.Add(1)
+	go func() {
+		defer w.wg.Done()
+		f()
+	}()
+}
+
+// joinAll blocks until every goroutine started with spawn has returned. Explicit synchronisation, no sleeps; the
+// watchdog only turns a harness bug (a goroutine that can never return) into a harness error instead of a silent hang.
+func (w *world) joinAll() {
+	done := make(chan struct{})
+	go func() { w.wg.Wait(); close(done) }()
+	select {
+	case <-done:
+	case <-time.After(60 * time.Second):
+		panic("harness error: goroutines still running against the database 60s after they were released")
+	}
+}
+
+// restart: close + reopen + new signer. The caller has quiesced the world (H.quiesce): no bump in flight, no delayed
+// request, no goroutine inside the key manager.
 func (w *world) restart() {
-	w.abortBump()
+	if w.at != "" {
+		panic("harness error: restart with a bump in flight (quiesce first)")
+	}
+	w.joinAll()
 	if !w.closed {
 		if err := w.db.Close(); err != nil {
 			panic(err)
@@ -210,10 +254,15 @@ func (w *world) restart() {
 	w.open()
 }
 
-func (w *world) destroy(closeDB bool) {
-	if closeDB {
-		w.abortBump()
+// shutdown closes the database of a quiesced world and removes its directory.
+func (w *world) shutdown() {
+	if w.at != "" {
+		panic("harness error: shutdown with a bump in flight (quiesce first)")
+	}
+	w.joinAll()
+	if !w.closed {
 		_ = w.db.Close()
+		w.closed = true
 	}
 	_ = os.RemoveAll(w.dir)
 }
@@ -324,6 +373,9 @@ func slashKind(a, b relAtt) string {
 // refusal tag from the error text of the pinned library (diagnostic classes; the pinned module cannot be
 // reworded without a version bump, which the regenerated fingerprints catch first)
 func refuseTag(err error) string {
+	if _, ok := err.(panicErr); ok {
+		return "panic"
+	}
 	m := err.Error()
 	switch {
 	case strings.Contains(m, "account not found"):
@@ -356,6 +408,9 @@ func opErrTag(err error) string {
 		return "fault"
 	case errors.Is(err, errAbort):
 		return "aborted"
+	}
+	if _, ok := err.(panicErr); ok {
+		return "panic"
 	}
 	return "err"
 }
@@ -429,6 +484,7 @@ type H struct {
 	delayedObs string     // its observation, once it has completed (reported by `resume`)
 	delayedK   int        // share of the delayed request (generator bookkeeping)
 	delayedSh  *share     // share of the delayed request
+	abandoned  []*world   // wedged worlds (never closed; directories removed at exit)
 }
 
 // delayedOp: the request runs in its own goroutine (it blocks on the wallet lock); done() is run on the harness
@@ -436,6 +492,27 @@ type H struct {
 type delayedOp struct {
 	ch   chan error
 	done func(err error) string
+}
+
+// quiesce brings the world to rest before its database is closed / reopened or the next case starts: the in-flight
+// bump is aborted (it returns without further writes and releases the wallet lock), the request that was waiting for
+// it is joined (it runs now), and every other harness goroutine of the world has returned.
+func (h *H) quiesce() {
+	h.w.abortBump()
+	h.collectDelayed()
+	h.w.joinAll()
+}
+
+// abandon: the signer of the current world is wedged (goroutines parked for ever inside the pinned library's lock).
+// Its database is NOT closed (a goroutine could still be inside it) — it is left alone and its directory is removed
+// when the process exits; a fresh world takes over.
+func (h *H) abandon() {
+	old := h.w
+	h.abandoned = append(h.abandoned, old)
+	h.delayed, h.delayedObs = nil, ""
+	h.w = newWorld()
+	h.w.net.slot.Store(old.net.slot.Load())
+	h.cs = nil
 }
 
 // collectDelayed waits for the delayed request once the bump has released the lock. A request that does not
@@ -547,7 +624,7 @@ func (h *H) issueDelayed(line string, ws []string, sh *share) {
 		return
 	}
 	d := &delayedOp{ch: make(chan error, 1), done: done}
-	go func() { d.ch <- call() }()
+	w.spawn(func() { d.ch <- safely(call) })
 	h.delayed = d
 	h.delayedSh = sh
 	h.run.Seen("delayed:" + ws[0])
@@ -625,8 +702,7 @@ func (h *H) doOp(line string) {
 	h.cur = line
 	if ws[0] == "reset" {
 		// a new self-contained case: fresh share keys on the SAME database, clock set by the line
-		w.abortBump()
-		h.collectDelayed()
+		h.quiesce()
 		h.delayedObs = ""
 		n, _ := kvOf(ws, "shares")
 		c, _ := kvOf(ws, "clock")
@@ -672,8 +748,7 @@ func (h *H) doOp(line string) {
 		h.emit(line, "ok")
 	case "restart":
 		inflight := w.at != ""
-		w.abortBump()      // the in-flight bump returns without further writes and releases the wallet lock
-		h.collectDelayed() // a request that was waiting for it runs now (before the process goes down)
+		h.quiesce() // the in-flight bump is aborted, a request that was waiting for it runs now (before the process goes down)
 		before := make([]string, len(cs.shares))
 		for i, s := range cs.shares {
 			before[i] = w.readback(s)
@@ -722,12 +797,13 @@ func (h *H) doOp(line string) {
 		cs.bumpK = indexOf(cs.shares, sh)
 		cs.bumpAt0 = h.clock()
 		w.turnBump.Store(true)
-		go func(pk []byte) {
+		pk := sh.pk
+		w.spawn(func() {
 			w.bumpGID.Store(goid())
-			err := w.km.(ekm.StorageProvider).BumpSlashingProtection(pk)
+			err := safely(func() error { return w.km.(ekm.StorageProvider).BumpSlashingProtection(pk) })
 			w.bumpGID.Store(0)
 			w.ev <- "done:" + opErrTag(err)
-		}(sh.pk)
+		})
 		h.emit(line, h.waitBump()+" "+w.readback(sh))
 	case "bread", "bwrite":
 		want := map[string]bool{"retrAtt": true, "retrProp": true}
@@ -785,6 +861,7 @@ func (h *H) doOp(line string) {
 			out = "empty-signature"
 		}
 		if ws[0] == "sattf" && mode == "close" {
+			h.quiesce()
 			w.restart() // reopen the same database (the process that was shutting down is gone)
 			cs.bumpK = -1
 		}
@@ -837,6 +914,7 @@ func (h *H) doOp(line string) {
 			out = "empty-signature"
 		}
 		if ws[0] == "sblkf" && mode == "close" {
+			h.quiesce()
 			w.restart()
 			cs.bumpK = -1
 		}
@@ -928,10 +1006,14 @@ func (h *H) doConc(line string, ws []string, sh *share) {
 		atts[i] = relAtt{s: s, t: t}
 		h.salt++
 		att := mkAtt(h.clock(), s, t, h.salt)
-		go func(i int) {
-			_, _, err := h.w.km.SignBeaconObject(att, phase0.Domain{}, sh.pk, spectypes.DomainAttester)
+		i, w := i, h.w
+		w.spawn(func() {
+			err := safely(func() error {
+				_, _, err := w.km.SignBeaconObject(att, phase0.Domain{}, sh.pk, spectypes.DomainAttester)
+				return err
+			})
 			ch <- res{i, err == nil}
-		}(i)
+		})
 	}
 	got := make([]byte, len(reqs))
 	for i := range got {
@@ -969,12 +1051,7 @@ func (h *H) doConc(line string, ws []string, sh *share) {
 			h.run.Extra["concurrent_hang_example"] = append(append([]string(nil), h.cs.lines...), line+" got="+string(got))
 		}
 		// the signer is wedged (goroutines parked inside the library hold its locks): abandon it
-		old := h.w
-		h.w = newWorld()
-		h.w.net.slot.Store(old.net.slot.Load())
-		_ = old.db.Close() // the parked goroutines are inside the library's lock()/unlock(), not in the database
-		old.destroy(false)
-		h.cs = nil
+		h.abandon()
 		return
 	}
 	h.run.Tag(hx.Sprintf("conc:done:released=%d", released))
@@ -1015,22 +1092,26 @@ func (h *H) doXconc(line string, ws []string, sh *share) {
 			continue
 		}
 		others++
-		go func(pk []byte) {
-			probe := mkAtt(clock, epoch, epoch+1, 7)
-			bs := w.km.(spectypes.BeaconSigner)
-			for !stop.Load() {
-				_ = bs.IsAttestationSlashable(pk, probe)
-				_ = bs.IsBeaconBlockSlashable(pk, phase0.Slot(clock+1))
-			}
+		pk := o.pk
+		w.spawn(func() {
+			_ = safely(func() error {
+				probe := mkAtt(clock, epoch, epoch+1, 7)
+				bs := w.km.(spectypes.BeaconSigner)
+				for !stop.Load() {
+					_ = bs.IsAttestationSlashable(pk, probe)
+					_ = bs.IsBeaconBlockSlashable(pk, phase0.Slot(clock+1))
+				}
+				return nil
+			})
 			done <- struct{}{}
-		}(o.pk)
+		})
 	}
 	hung := false
 	released := 0
 	type res struct{ ok bool }
 	call := func(f func() error) (ok, hang bool) {
 		ch := make(chan error, 1)
-		go func() { ch <- f() }()
+		w.spawn(func() { ch <- safely(f) })
 		select {
 		case err := <-ch:
 			return err == nil, false
@@ -1086,12 +1167,7 @@ func (h *H) doXconc(line string, ws []string, sh *share) {
 	if hung {
 		h.run.Tag("xconc:hang")
 		h.hangs++
-		old := h.w
-		h.w = newWorld()
-		h.w.net.slot.Store(old.net.slot.Load())
-		_ = old.db.Close()
-		old.destroy(false)
-		h.cs = nil
+		h.abandon()
 		return
 	}
 	for i := 0; i < others; i++ {
@@ -1419,7 +1495,13 @@ func main() {
 	threshold.Init()
 	h := &H{run: run, rng: hx.NewRng(run.Seed), sigCount: map[string]int{}}
 	h.w = newWorld()
-	defer func() { h.w.destroy(true) }()
+	defer func() {
+		h.quiesce()
+		h.w.shutdown()
+		for _, a := range h.abandoned {
+			_ = os.RemoveAll(a.dir) // database left open on purpose, the process exits right after
+		}
+	}()
 	h.spe = h.w.net.SlotsPerEpoch()
 
 	// the model's far-future thresholds agree with the library on every value the generator draws
